@@ -37,6 +37,8 @@ BOUNDED_RESULT = re.compile(r"^jiff::Timestamp::(as_second|subsec_nanosecond|as_
 IO_CALLS = re.compile(r"^(tokio|std)::fs::|^aws_sdk_s3::|^aws_config::|^ssh2::|^std::io::|^tokio::io::|^filetime::|^std::os::|^uzers::|^nix::|^tempfile::|^std::env::|^std::time::|^jiff::Timestamp::now$|^cachedir::")
 SOURCE_CALLS = re.compile(r"^serde_json::from_(slice|str|reader)$|^transport::Transport::(read|list_dir)(::\{closure#0\})?$"
                           r"|^compress::snappy::Decompressor::decompress$")
+# calls that allocate / reserve as many elements as their argument says
+ALLOC = re.compile(r"::with_capacity(_in)?$|::reserve(_exact)?$|::try_reserve|^bytes::BytesMut::(zeroed|with_capacity|resize)$|^std::vec::from_elem$|^alloc::vec::from_elem$|^std::vec::Vec::<T, A>::resize$|^std::iter::repeat_n$|::repeat$")
 BOUNDING = re.compile(r"^bytes::Bytes::slice$|ops::Index<.*::index$|ops::IndexMut<.*::index_mut$|<impl \[T\]>::split_at|^std::cmp::(max|min)$|Ord>?::(max|min)$|::truncate$|::resize$|::with_capacity$|::reserve$")
 
 
@@ -72,13 +74,14 @@ class Sink:
 
 
 class Taint:
-    def __init__(self, world, doc_types, decoded_enums=(), source_calls=None, bounded_sanitize=True):
+    def __init__(self, world, doc_types, decoded_enums=(), source_calls=None, bounded_sanitize=True, no_prop=None):
         self.w = world
         self.lib = world.lib
         self.g = world.graph
         self.doc_types = set(doc_types)
         self.source_calls = source_calls or SOURCE_CALLS
         self.bounded_sanitize = bounded_sanitize
+        self.no_prop = no_prop or NO_PROP
         self.decoded_enums = set(decoded_enums)
         self.V = defaultdict(set)     # (body, local) -> labels
         self.D = defaultdict(set)
@@ -343,7 +346,7 @@ class Taint:
     def _call(self, body, e, is_cl):
         name = e.name
         decl = e.callee or ""
-        if NO_PROP.search(name) or NO_PROP.search(decl):
+        if self.no_prop.search(name) or self.no_prop.search(decl):
             return False
         args = [self._read(body, a, is_cl) for a in e.args]
         argV = [a[0] for a in args]
@@ -470,6 +473,17 @@ class Taint:
                     out.append(Sink("unwrap", body, e.bb, e.line, D,
                                     "%s() on a value whose presence depends on decoded data (%s)" % (what, src),
                                     "%s of %s" % (what, src)))
+            elif ALLOC.search(e.name) and e.args and not e.macro:
+                labs = set()
+                for a in e.args[-2:]:
+                    if a.get("k") != "const":
+                        ty = body.locals[a["pl"]["l"]]
+                        if ty in ("usize", "u64", "u32"):
+                            labs |= self._read(body, a, is_cl)[0]
+                if labs:
+                    out.append(Sink("alloc", body, e.bb, e.line, labs,
+                                    "%s sized by decoded data (capacity overflow / out-of-memory abort)" % e.name.split("::")[-1],
+                                    "%s sized by decoded value" % e.name.split("::")[-1]))
             elif PANIC_FN.search(e.name) and (e.macro in PANIC_MACROS):
                 ctrl = self._controlling(body, e.bb, is_cl)
                 if ctrl:
